@@ -3,6 +3,8 @@
 mod rng;
 mod sx;
 mod c31;
+mod alpha;
+mod c08;
 
 pub struct Args {
     pub cmd: String,
@@ -44,6 +46,7 @@ fn main() {
     let a = parse_args();
     match a.cmd.as_str() {
         "c31" => c31::run(&a),
+        "c08" => c08::run(&a),
         other => {
             eprintln!("unknown subcommand {other}");
             std::process::exit(2)
